@@ -49,11 +49,14 @@ def _record(ctx, module, cfg, r, expect_ok=True):
 
 def _design_level(ctx):
     """exhaustive TLC per role; returns the model counterexamples printed by the Report constraint"""
-    suffix = "" if ctx.quick else "_full"
-    jobs = [("Sim_DKG", "MC_DKG_%s%s.cfg" % (r, suffix)) for r in ROLES]
+    if ctx.quick:      # reduced catalogue, 2 epochs, exploration stops behind a compromised group
+        jobs = [("Sim_DKG", "MC_DKG_%s.cfg" % r) for r in ROLES]
+    else:              # complete catalogue over 2 epochs for every role + 3 epochs (reduced catalogue) for member and leaver
+        jobs = [("Sim_DKG", "MC_DKG_%s_full.cfg" % r) for r in ROLES] + \
+               [("Sim_DKG", "MC_DKG_%s_deep.cfg" % r) for r in ("member", "leaver")]
     per = max(2, core.NCPU // len(jobs))
     dirs = [ctx.sub(cfg.replace(".cfg", "")) for _, cfg in jobs]
-    tmo = 240 if ctx.quick else 1100
+    tmo = 400 if ctx.quick else 1500
 
     def one(i):
         return core.run_tlc(dirs[i], jobs[i][0], jobs[i][1], workers=per, timeout=tmo)
@@ -151,8 +154,25 @@ def _validate_chunks(ctx, trace, n, timeout):
     return ok, alarms, dones
 
 
+def _replay_file(ctx, script, sig):
+    """a violation's replay = the scenario's script (check.py <Cnn> --replay <file> re-executes it)"""
+    import hashlib
+    os.makedirs(os.path.join(core.ROOT, "replays"), exist_ok=True)
+    h = hashlib.sha1(json.dumps(sig, sort_keys=True).encode()).hexdigest()[:10]
+    path = os.path.join(core.ROOT, "replays", "%s-%s.ndjson" % (ctx.prop, h))
+    with open(path, "w") as fh:
+        fh.write(json.dumps(script) + "\n")
+    return path
+
+
 def run(ctx, monitors):
     q = ctx.quick
+    if getattr(ctx, "replay", None):
+        # re-execute one recorded scenario on the real code and judge it again
+        scripts = [json.loads(l) for l in open(ctx.replay) if l.strip()]
+        cex, tour, kinds = {}, {}, []
+        ctx.exhaustive = False
+        return _execute(ctx, monitors, scripts, kinds)
     # 1. design level
     cex, tour = _design_level(ctx)
     kinds = sorted({(m, d) for (m, d, _) in cex})
@@ -216,6 +236,12 @@ def run(ctx, monitors):
     scripts = keep
     if len(walks) == 0:
         ctx.inconclusive.append("dkgcontrol: TLC produced no simulation walk")
+    return _execute(ctx, monitors, scripts, kinds)
+
+
+def _execute(ctx, monitors, scripts, kinds):
+    q = ctx.quick
+    byname = {s["name"]: s for s in scripts}
     inp = os.path.join(ctx.work, "dkg-scripts.ndjson")
     write_scripts(inp, scripts)
     trace = run_harness(ctx, "./internal/dkg", "TestVerifDKGControl", "dkgcontrol.ndjson", env={"VERIF_IN": inp},
@@ -254,9 +280,11 @@ def run(ctx, monitors):
     seen = {}
     for a in alarms:
         if a["mon"] in monitors:
-            ctx.alarm({"stage": "dkgcontrol", "mon": a["mon"], "detail": a["detail"], "what": a["what"], "pre": a["pre"]},
+            sig = {"stage": "dkgcontrol", "mon": a["mon"], "detail": a["detail"], "what": a["what"], "pre": a["pre"]}
+            ctx.alarm(sig,
                       "dkg.Process (node %s): monitor %s failed (%s) on %s in state %s, trace line %s, scenario %s"
-                      % (a["me"], a["mon"], a["detail"], a["what"], a["pre"], a["line"], a["scenario"]))
+                      % (a["me"], a["mon"], a["detail"], a["what"], a["pre"], a["line"], a["scenario"]),
+                      replay=_replay_file(ctx, byname[a["scenario"]], sig) if a["scenario"] in byname else None)
         elif a["mon"] not in DRIFT:
             seen[a["mon"]] = seen.get(a["mon"], 0) + 1
     if seen:
